@@ -775,7 +775,8 @@ pub fn c05(out: &str, plain: &[&Tok], marks: &[serde_json::Value], cfg: &Cfg) ->
         let want = if refk == 0 { 0 } else { base + delta * unit };
         checked += 1;
         if li.indent.len() != want {
-            res.push(Viol { prop: "C05", clause: "depth", detail: format!("{what} {:?} (plain token {ord}) is indented {} but its block opener's line is indented {base} (expected {want}): {:?}", tok.text(out), li.indent.len(), context(out, tok.content_start())) });
+            let opener = ord_of_key.get(&refk).map(|o| format!(" [opener {o}]")).unwrap_or_default();
+            res.push(Viol { prop: "C05", clause: "depth", detail: format!("{what} {:?} (plain token {ord}) is indented {} but its block opener's line is indented {base} (expected {want}): {:?}{opener}", tok.text(out), li.indent.len(), context(out, tok.content_start())) });
         }
     }
     (res, checked, skipped)
